@@ -121,6 +121,8 @@ static std::string reasm_op(uint64_t x) {
     r.reset(); return "";
 }
 
+static inline void put32le(Bytes& b, uint32_t v) { for (int i = 0; i < 4; ++i) b.push_back((uint8_t)(v >> (8 * i))); }
+static inline void put16le(Bytes& b, uint16_t v) { b.push_back((uint8_t)v); b.push_back((uint8_t)(v >> 8)); }
 struct Root { PDU* p; bool known, bytes_known, moved_from; std::vector<int> types; Bytes bytes; Root() : p(0), known(false), bytes_known(false), moved_from(false) {} };
 struct PkSlot { Packet* pk; bool known, bytes_known; std::vector<int> types; Bytes bytes; PkSlot() : pk(0), known(false), bytes_known(false) {} };
 
@@ -145,7 +147,7 @@ struct OwnEngine : Engine {
         int nops = (int)cfg.range(5, tier == "thorough" ? 60 : 30);
         auto add_new = [&]() { if (cfg.chance(0.75)) { int dlt = dlts[cfg.below(7)]; gen::Frame f = gen::frame_for(wl, dlt); KV k; k.set("op", "new").set("dlt", dlt).set("f", f.bytes); p.steps.push_back(k.line()); } else { KV k; k.set("op", "newdef").set("cls", (int64_t)cfg.below(12)); p.steps.push_back(k.line()); } };
         add_new(); add_new();
-        static const char* ops[] = { "new", "clone", "copyctor", "clone_inner", "copy_inner", "move_inner", "copyassign", "copyassign", "movector", "moveassign", "div", "diveq", "inner_ptr", "inner_ref", "release", "reattach", "delete", "mutate", "mutate",
+        static const char* ops[] = { "new", "clone", "copyctor", "clone_inner", "copy_inner", "move_inner", "inner_ref_own", "sniffed", "copyassign", "copyassign", "movector", "moveassign", "div", "diveq", "inner_ptr", "inner_ref", "release", "reattach", "delete", "mutate", "mutate",
                                      "pk_wrap", "pk_clonewrap", "pk_copy", "pk_assign", "pk_assign", "pk_move", "pk_moveassign", "pk_release", "pk_diveq", "optassign", "selfassign", "stack", "tcpstream", "cacher", "reasm" };
         for (int i = 0; i < nops; ++i) {
             std::string o = ops[cfg.below(sizeof(ops) / sizeof(ops[0]))];
@@ -246,6 +248,21 @@ struct OwnEngine : Engine {
                         SUT(roots[a].p->inner_pdu(child)); ledger::fail_countdown = 0; roots.erase(roots.begin() + b); size_t na = a > b ? a - 1 : a; record(roots[na]); touched_r.clear(); touched_r.insert(na); if (both && roots[na].types != want) result = Verdict::bad("own:relink-wrong-layers", "inner_pdu(ptr) did not replace the child chain", idx); nontrivial = true; } }
                 else if (op == "inner_ref") { touched_r.insert(a); std::vector<int> want(1, roots[a].types.empty() ? 0 : roots[a].types[0]); want.insert(want.end(), roots[b].types.begin(), roots[b].types.end()); bool both = roots[a].known && roots[b].known; if (a == b) { want.resize(1); want.insert(want.end(), roots[a].types.begin(), roots[a].types.end()); }
                         if (roots[b].types.size() + 1 > 12) skipped = true; else { SUT(roots[a].p->inner_pdu(*roots[b].p)); ledger::fail_countdown = 0; record(roots[a]); if (both && roots[a].types != want) result = Verdict::bad("own:relink-wrong-layers", "inner_pdu(ref) did not install a copy of the chain", idx); nontrivial = true; } }
+                else if (op == "inner_ref_own") {
+                    // inner_pdu(const PDU&) with a layer of the receiver's OWN child chain as argument ("strip the layers in between"): the copy is taken before the old chain goes
+                    std::vector<int> cur_types = types_of(roots[a].p); size_t n = cur_types.size(); if (n < 3) skipped = true; else { touched_r.insert(a); size_t kpos = 2 + (size_t)x % (n - 2); PDU* q0 = roots[a].p; for (size_t i = 0; i < kpos; ++i) q0 = q0->inner_pdu();
+                        std::vector<int> want(1, cur_types[0]); want.insert(want.end(), cur_types.begin() + kpos, cur_types.end()); SUT(roots[a].p->inner_pdu(*q0)); ledger::fail_countdown = 0; record(roots[a]); st.inc("probe.inner_ref_of_own_descendant");
+                        if (roots[a].types != want) result = Verdict::bad("own:relink-wrong-layers", "inner_pdu(ref to an own descendant) did not install a copy of that sub-chain", idx); nontrivial = true; } }
+                else if (op == "sniffed") {
+                    // Packet built from what a sniffer hands out (PtrPacket -> Packet adopts the parsed tree), copied, moved, destroyed: nothing may be left behind
+                    if (!roots[a].bytes_known || roots[a].moved_from || roots[a].bytes.empty() || roots[a].types.empty() || roots[a].types[0] != (int)PDU::ETHERNET_II) skipped = true;
+                    else { ledger::fail_countdown = 0; int64_t before = ledger::live; std::string err; const Bytes& fb = roots[a].bytes;
+                        Bytes file; put32le(file, 0xa1b2c3d4u); put16le(file, 2); put16le(file, 4); put32le(file, 0); put32le(file, 0); put32le(file, 65535); put32le(file, 1); for (int rep = 0; rep < 2; ++rep) { put32le(file, 1600000000u + rep); put32le(file, 7 * rep); put32le(file, (uint32_t)fb.size()); put32le(file, (uint32_t)fb.size()); putb(file, fb); }
+                        FILE* fp = fmemopen(file.data(), file.size(), "rb");
+                        if (!fp) skipped = true; else { { ledger::Scope sc; try { FileSniffer sn(fp); Packet p1(sn.next_packet()); if (!p1.pdu()) { /* the serialized tree does not parse back (C03's subject): both records were skipped, nothing to own */ } else { if (p1.pdu()->parent_pdu()) err = "root of a sniffed Packet has a parent link"; Packet p2(p1); Packet p3(std::move(p1)); if (p1.pdu()) err = "moved-from Packet keeps its tree"; if (!p2.pdu() || !p3.pdu() || p2.pdu() == p3.pdu()) err = "copy of a sniffed Packet shares or loses the tree";
+                                    Packet p4 = sn.next_packet(); Packet p5; p5 = p4; if (!p4.pdu() || !p5.pdu() || p4.pdu() == p5.pdu()) err = "Packet assigned from a sniffed one shares or loses the tree"; } } catch (std::exception& e) { err = std::string("exception: ") + e.what(); } }
+                            st.inc("probe.holder_op.sniffed");
+                            if (!err.empty()) result = Verdict::bad("own:holder-sniffed-state", err, idx); else if (ledger::live != before) { result = Verdict::bad("own:holder-sniffed-leak", fmt("%lld allocations made while reading, copying and destroying sniffed Packets are still live", (long long)(ledger::live - before)), idx); ledger::live = before; } } } }
                 else if (op == "release") { touched_r.insert(a); PDU* c = 0; SUT(c = roots[a].p->release_inner_pdu()); ledger::fail_countdown = 0; record(roots[a]); if (c) add_root(c); if (roots[a].p->inner_pdu()) result = Verdict::bad("own:released-still-linked", "parent still has a child after release_inner_pdu", idx); if (c && c->parent_pdu()) result = Verdict::bad("own:released-keeps-parent-link", "released child still designates a parent", idx); if (c) nontrivial = true; }
                 else if (op == "reattach") { if (a == b || roots[a].types.size() + roots[b].types.size() > 12) skipped = true; else { touched_r.insert(a); touched_r.insert(b); PDU* c = 0; SUT(c = roots[a].p->release_inner_pdu(); if (c) tail(roots[b].p)->inner_pdu(c)); if (c) nontrivial = true; ledger::fail_countdown = 0; record(roots[a]); record(roots[b]); } }
                 else if (op == "delete") { SUT(delete roots[a].p); ledger::fail_countdown = 0; roots.erase(roots.begin() + a); }
